@@ -102,12 +102,19 @@ func (g *gatingStore) Cursor(ctx context.Context, fn func(context.Context, chain
 }
 
 func (g *gatingStore) AddCallback(id string, fn beacon.CallbackFunc) {
+	g.register(id, fn, g.CallbackStore.AddCallback)
+}
+
+// gatingStore.AddStreamCallback — what SyncChain calls on a tree whose callbackStore knows stream consumers — is in
+// streamadd_v1.go / streamadd_v2.go (the method's result type differs between the two shapes of the store's API).
+
+func (g *gatingStore) register(id string, fn beacon.CallbackFunc, add func(string, beacon.CallbackFunc)) {
 	g.s.gate("gate-register")
 	if old := g.s.sut.owner(id); old != nil {
 		atomic.AddInt32(&old.expected, 1) // the close signal
 	}
 	g.s.cbid = id
-	g.CallbackStore.AddCallback(id, func(b *common.Beacon, closed bool) {
+	add(id, func(b *common.Beacon, closed bool) {
 		atomic.AddInt32(&g.s.inflight, 1)
 		if closed {
 			atomic.StoreInt32(&g.s.closed, 1)
@@ -584,6 +591,7 @@ func streamEngine(args []string, in *bufio.Scanner, out *bufio.Writer) {
 				n, _ := strconv.Atoi(f[2])
 				first := c.head + 1
 				var donePuts int32
+				entered0 := atomic.LoadInt32(&s.entered)
 				done := make(chan error, 1)
 				for _, t := range c.streams {
 					if t.cbid != "" && c.owner(t.cbid) == t {
@@ -597,13 +605,31 @@ func streamEngine(args []string, in *bufio.Scanner, out *bufio.Writer) {
 							return
 						}
 						atomic.AddInt32(&donePuts, 1)
+						if i == 0 && s.cbid != "" {
+							// the worker takes the first job at once and then sits in its Send: wait until it is there, so that
+							// "how many jobs fit before the queue is full" does not depend on the scheduler
+							for dl := time.Now().Add(time.Second); time.Now().Before(dl) && atomic.LoadInt32(&s.entered) == entered0; {
+								time.Sleep(20 * time.Microsecond)
+							}
+						}
 					}
 					done <- nil
 				}()
 				finished := false
 				var perr error
 				last, lastChange := int32(-1), time.Now()
-				for !finished && time.Since(lastChange) < 300*time.Millisecond {
+				// "stopped making progress" = no append finished for 300 ms WHILE some job queue is full (that is what an append can be
+				// waiting for); without a full queue the appending goroutine is merely not being scheduled (loaded machine) and the
+				// client must not start reading yet, or the script would not be the one that was asked for
+				anyFull := func() bool {
+					for _, t := range c.streams {
+						if j := t.jobs.Load(); j != nil && j.Cap() > 0 && j.Len() >= j.Cap() {
+							return true
+						}
+					}
+					return false
+				}
+				for !finished && (time.Since(lastChange) < 300*time.Millisecond || (!anyFull() && time.Since(lastChange) < 5*watchdog())) {
 					select {
 					case perr = <-done:
 						finished = true
